@@ -16,7 +16,7 @@ THEOREMS = ["C17_aton_toa_int", "C17_toa_is_write_rendering", "C17_aton_non_stri
             "C17_generators_are_the_generated_trees", "C17_fromto_yields", "C17_fromto_empty", "C17_fromto_steps",
             "C17_indices_yields", "C17_elems_yields", "C17_seq_at_is_indexing", "C17_elems_of_non_sequence",
             "C17_for_over_fromto_collects", "C17_fromto_session", "C17_for_over_elems_returns_the_array",
-            "C17_for_over_indices_collects", "C17_reads_successive_lines", "C17_read_at_end_of_input"]
+            "C17_for_over_indices_collects", "C17_reads_successive_lines", "C17_read_at_end_of_input", "C17_compiled_toa_is_what_write_prints", "C17_compiled_aton_toa_int", "C17_compiled_aton_errors", "C17_compiled_reads_successive_lines"]
 
 M63 = 1 << 63
 INTS = [0, 1, -1, 9, 10, 99, 100, 12345, 1 << 31, (1 << 53) - 1, 1 << 53, (1 << 53) + 1, (1 << 53) + 3,
